@@ -113,12 +113,12 @@ Fixpoint plain_go (f : nat) (acc : list chr) (lb : bool) (tb : N) (ws : list chr
   | S f =>
     look bops 4 ;;;
     s <- get ;;
-    di <- (if sc_lws s then next_is_document_indicator bops else ret false) ;;
+    di <- (if sc_lws s && (m_col (sc_mark s) =? 0) then next_is_document_indicator bops else ret false) ;;
     c <- peek bops ;;
     if di || (c =? 35) then ret (acc, endm) else
     nc <- peekn bops 1 ;;
     let fl := 0 <? sc_flow_level s in
-    if fl && (c =? 45) && is_flow nc then fail 76 (sc_mark s) else
+    if (match acc with [] => true | _ => false end) && fl && (c =? 45) && is_flow nc then fail 76 (sc_mark s) else
     cb <- (if is_blank_or_breakz c then ret false else next_can_be_plain_scalar bops fl) ;;
     r <- (if cb then
             let '(acc, lb, tb, ws) :=
@@ -178,7 +178,7 @@ Proof.
   destruct (di || (c =? 35)%N); [apply wp_ret; exact K1|].
   apply wp_bind. apply (wp_peekn cap cap_ge); [lia|]. intros nc.
   cbv zeta.
-  destruct ((0 <? sc_flow_level s1)%N && (c =? 45)%N && is_flow nc); [apply wp_fail|].
+  destruct ((match acc with [] => true | _ => false end) && (0 <? sc_flow_level s1)%N && (c =? 45)%N && is_flow nc); [apply wp_fail|].
   apply wp_bind.
   match goal with |- wp _ ?Q _ => assert (HQ : forall cb, Q cb s1) end.
   2:{ apply wp_if_any; [apply wp_ret; exact (HQ false)|apply (wp_next_can_be_plain_scalar cap cap_ge); [lia|exact HQ]]. }
